@@ -46,6 +46,11 @@ Definition check (c : case) : nat :=
     && Bool.eqb (o_inter c) (o_inter_ba c)
     && (if nonempty eps a && nonempty eps b then Bool.eqb (o_inter c) (intersects eps a b) else true)
     && (if (st a <=? en a) && (st b <=? en b) then Bool.eqb (o_in c) (sin b a) else true)
+    (* inverted operands: "closed-interval inclusion" can be read on the bounds (as coded) or on the
+       point sets (an inverted segment is the empty set); wherever the two readings agree the
+       answer is fixed *)
+    && (let set_reading := if en a <? st a then true else (st b <=? st a) && (en a <=? en b) in
+        if Bool.eqb set_reading (sin b a) then Bool.eqb (o_in c) (sin b a) else true)
     && Bool.eqb (o_eq c) (seqb a b)
     && Bool.eqb (o_lt c) (sltb a b)
     && (if seqb a b then o_hasheq c else true)
